@@ -31,7 +31,7 @@ func init() {
 			}
 			return ps
 		},
-		MinObserved: []string{"startups", "dials_after_ready_true", "failing_addresses_checked", "pollers_saw_false_before_true", "served_after_accept_failure_episodes", "served_next_to_silent_tls_peers", "served_while_an_onclose_callback_runs"},
+		MinObserved: []string{"startups", "dials_after_ready_true", "failing_addresses_checked", "pollers_saw_false_before_true", "served_after_accept_failure_episodes", "served_next_to_silent_tls_peers", "served_while_an_onclose_callback_runs", "served_after_idling_longer_than_the_read_timeout"},
 	})
 }
 
@@ -179,6 +179,13 @@ func c17Run(c *Ctx) {
 	mustFail := map[string]bool{fmt.Sprintf("127.0.0.1:%d", heldPort): true, fmt.Sprintf(":%d", heldPort): true}
 	if held6 != nil {
 		mustFail[fmt.Sprintf("[::1]:%d", held6.Addr().(*net.TCPAddr).Port)] = true
+	}
+	// the port is held on the IPv6 wildcard only (an ordinary tcp6 listener): a host-less address covers it
+	if w6, err := net.Listen("tcp6", "[::]:0"); err == nil {
+		defer w6.Close()
+		a := fmt.Sprintf(":%d", w6.Addr().(*net.TCPAddr).Port)
+		failing = append(failing, a)
+		mustFail[a] = true
 	}
 	if oerr == nil {
 		defer other.StopWithin(patience)
@@ -379,6 +386,21 @@ func c17Disturbances(c *Ctx) {
 		}
 		close(holdClose)
 		osrv.StopWithin(patience)
+
+		// a server with a read timeout that sees no connection for longer than that timeout
+		rsrv, err := startSrv(SrvCfg{ReadTimeout: 300 * time.Millisecond}, bindOK)
+		if err != nil {
+			c.Inconclusive("server start: " + err.Error())
+			return
+		}
+		time.Sleep(time.Duration(700+100*(ep%3)) * time.Millisecond)
+		if err := c17Served(rsrv.Addr, nil, bound); err != nil && rsrv.S.Ready() {
+			c.Violate("Ready() was true but a connection attempt failed or was not served", fmt.Sprintf("server with a 300ms read timeout that had been idle for longer than that: Ready()=true, Stop not called, yet a new connection is not served within %s: %v", bound, err), map[string]any{"episode": ep})
+		} else if err == nil {
+			c.Count("dials_after_ready_true", 1)
+			c.Count("served_after_idling_longer_than_the_read_timeout", 1)
+		}
+		rsrv.StopWithin(patience)
 
 		tsrv, err := startSrv(SrvCfg{TLS: pki.ServerOnly}, bindOK)
 		if err != nil {
